@@ -218,6 +218,8 @@ def layouts():
     L["one file 1 2 3"] = [mkfile("a.json", [1, 2, 3], sep="\n")]
     L["two files 1 2 | 3"] = [mkfile("a.json", [1, 2]), mkfile("b.json", [3])]
     L["three files 1 | (empty) | 2 3"] = [mkfile("a.json", [1]), mkfile("b.json", []), mkfile("c.json", [2, 3])]
+    L["two files 1 | (empty)"] = [mkfile("a.json", [1]), mkfile("b.json", [])]
+    L["three files false | 2 | (empty)"] = [mkfile("a.json", [False]), mkfile("b.json", [2]), mkfile("c.json", [])]
     L["two files, first broken after 1"] = [mkfile("a.json", [1], broken=True), mkfile("b.json", [3])]
     L["one file broken after 1 2"] = [mkfile("a.json", [1, 2], broken=True)]
     L["stdin broken at 0"] = [mkfile(None, [], broken=True)]
@@ -274,9 +276,11 @@ def configs():
         C.append((f"{filt} | {inkey or 'default'} | {lname}", filt, lname, files, inkey, "", False))
     # (b) output options x -e x selected filters x two layouts
     for filt, outkey, es, lname in itertools.product([".", "[.]", "{b: ., a: [., {d: 1, c: []}], \"é\": \"x\\ny\"}", "\"s:\" + tostring", ". , false", "null", "empty", "select(. != 2)", "if . == 2 then error(\"boom\") else . end", "if . == 2 then halt(7) else . end"],
-                                             OUTOPTS, (False, True), ("stdin 1 2 3", "two files 1 {\"k\":[2]} | \"x\" 2 null")):
+                                             OUTOPTS, (False, True), ("stdin 1 2 3", "two files 1 {\"k\":[2]} | \"x\" 2 null", "two files 1 | (empty)", "three files false | 2 | (empty)")):
         if quick and lname != "stdin 1 2 3" and outkey not in ("", "-c", "-r"):
             continue
+        if lname.endswith("(empty)") and outkey != "":
+            continue  # these layouts are about the exit status only
         C.append((f"{filt} | out {outkey or 'default'} | -e={es} | {lname}", filt, lname, L[lname], "", outkey, es))
     return C
 
